@@ -618,12 +618,14 @@ def run(ctx, ck):
                and norm(c.func.value) == 'self.loads' and len(c.args) == 1:
                 apps.append(c)
                 owner = norm(c.args[0])
-                gds = [t for t, b in if_chain_preds(gfl_.cfg, gfl_.node_id_of(c)) if b]
+                from ..cfg import must_atoms
+                # (tests that hold on every path to the statement: nesting, early returns, guard clauses alike)
+                gds = must_atoms(gfl_.cfg, gfl_.node_id_of(c))
                 nums = [s_ for s_ in walk_no_nested(g_.node) if isinstance(s_, ast.Assign) and
                         norm(s_.targets[0]) == '%s.n' % owner]
-                ok = ok and ('%s.n is None' % owner) in gds and len(nums) >= 1 and \
-                    all(norm(s_.value) == 'len(self.loads)' and
-                        ('%s.n is None' % owner) in [t for t, b in if_chain_preds(gfl_.cfg, gfl_.node_id_of(s_)) if b]
+                fresh = ('%s.n is None' % owner, True)
+                ok = ok and fresh in gds and len(nums) >= 1 and \
+                    all(norm(s_.value) == 'len(self.loads)' and fresh in must_atoms(gfl_.cfg, gfl_.node_id_of(s_))
                         for s_ in nums)
     ok = ok and len(apps) >= 1
     ck.ob('R-EXH.attach', rl.qual + '|register-once', ok, rl.loc(),
